@@ -30,13 +30,30 @@ func init() {
 				"getRespFromCache (fresh entry): serves v.resp.Copy(), adjusts the TTLs of the copy")
 			ex.setBool("c10LazyHitCopies", contains(ss, "if lazyCacheEnabled { r := v.resp.Copy() dnsutils.SetTTL(r, uint32(lazyTtl)) return r, true }"), true,
 				"getRespFromCache (stale entry, lazy cache): serves v.resp.Copy(), sets the TTLs of the copy")
-			n := 0
-			for _, s := range ss {
-				if strings.Contains(s, "v.resp") && !strings.Contains(s, "v.resp.Copy()") {
-					n++
+			// every path out of the lookup hands out nil or a copy made in the same block: v.resp is read only as the
+			// receiver of Copy(), and every return statement returns `nil` or the `r` assigned from v.resp.Copy()
+			src := ex.str(fd.Body)
+			onlyCopies := strings.Count(src, "v.resp") > 0 && strings.Count(src, "v.resp") == strings.Count(src, "v.resp.Copy()") &&
+				strings.Count(src, ".resp") == strings.Count(src, "v.resp")
+			ast.Inspect(fd.Body, func(n ast.Node) bool {
+				switch x := n.(type) {
+				case *ast.ReturnStmt:
+					if len(x.Results) != 2 || (ex.str(x.Results[0]) != "nil" && ex.str(x.Results[0]) != "r") {
+						onlyCopies = false
+					}
+				case *ast.AssignStmt:
+					for i, l := range x.Lhs {
+						if ex.str(l) == "r" && (len(x.Rhs) <= i || ex.str(x.Rhs[i]) != "v.resp.Copy()") {
+							onlyCopies = false
+						}
+					}
+				case *ast.FuncLit, *ast.GoStmt, *ast.DeferStmt:
+					onlyCopies = false
 				}
-			}
-			_ = n
+				return true
+			})
+			ex.setBool("c10HitServesOnlyCopies", onlyCopies, true,
+				"getRespFromCache: the stored message is read only as the receiver of Copy(); every return hands out nil or that copy (no path returns the stored message itself)")
 		}
 		// every construction of an item: from copyNoOpt (store) or from a freshly unpacked message (dump load)
 		writers := 0
